@@ -124,8 +124,10 @@ func (g *gen) wrapSpy(e string) string {
 	return e
 }
 
-var strVars = []string{"s1", "s2", "p1.Name", "pp.Name", "m1.k1", "m1['k2']", "sl[0]", "u1", "g1", "gm.k", "gp.Name"}
+var strVars = []string{"s1", "s2", "p1.Name", "pp.Name", "m1.k1", "m1['k2']", "sl[0]", "u1", "g1", "gm.k", "gp.Name", "S1", "S2", "p1.name", "m1.K1"}
 var intVars = []string{"n1", "n2", "p1.Age", "m1.num", "gn", "loop.index"}
+
+// identifiers that differ from others only by case: S1/s1, N1/n1 (distinct values in the context)
 var listVars = []string{"l1", "il", "sl", "p1.Tags", "l2", "gl"}
 var mapVars = []string{"m1", "m2", "p1.Meta", "mi", "gm"}
 var strFilters = []string{"upper", "lower", "trim", "capitalize", "title", "escape", "e", "raw", "striptags", "nl2br", "url_encode", "reverse", "length", "default('d')", "replace('a', 'b')", "slice(0, 2)", "first", "last", "json_encode", "spaceless"}
@@ -253,6 +255,10 @@ func (g *gen) boolean(d int) string {
 	case 7:
 		return "s1 starts with " + g.strLit()
 	case 8:
+		if g.r.P(50) {
+			// the same pattern with and without the case-insensitive flag
+			return pick(g.r, []string{"s1", "s2", "S1", "'Hello'"}) + " matches " + pick(g.r, []string{"'/^h/'", "'/^h/i'", "'/^H/'", "'/^H/i'", "'/L+/'", "'/L+/i'", "'/^a/i'", "'/^a/'"})
+		}
 		return "s2 ends with " + g.strLit()
 	case 9:
 		if g.f.Spies {
@@ -530,6 +536,9 @@ func defaultCtx(r *R) *Val {
 	pp.T = "ptr"
 	return &Val{T: "map", M: []KV{
 		{"s1", s(pick(r, words))},
+		{"S1", s("UPPER-S1")},
+		{"S2", s("hello upper")},
+		{"N1", i(777)},
 		{"s2", s(pick(r, []string{"a,b,c", "Hello", "x y z", "<i>", "ünï"}))},
 		{"n1", i(r.N(10))},
 		{"n2", i(r.N(100) - 50)},
